@@ -77,7 +77,8 @@ FAMILIES = {
         rule='per-type timeouts (odd multiples of 1/128 s) against handler programs of sleeps (multiples of 1/64 s), nested awaits; serial buses; '
              'non-trivial: a handler is cancelled by a deadline'),
     'C11': dict(
-        gens=[('core', dict(p_raise=0.3), 1.0)],
+        gens=[('core', dict(p_raise=0.3), 0.8), ('core', dict(p_raise=0.3, p_parallel=0.7, nb=(2, 3), proglen=(2, 6)), 0.1),
+              ('parraise', dict(), 0.1)],
         facets=CORE + ['results', 'signal'],
         rule='raising handlers at every position (parent, child, awaited child, forwarded bus; sync and async, before/after suspension); '
              'non-trivial: a handler raises'),
@@ -148,7 +149,7 @@ def gen_backlog(rng, p_waitidle=0.0, **_):
     return sc
 
 
-GENS = {'core': gen.gen_core, 'backlog': gen_backlog, 'chain': gen.gen_chain, 'stop': gen.gen_stop, 'idle': gen.gen_idle, 'deep': gen.gen_deep, 'sibling': gen.gen_sibling}
+GENS = {'core': gen.gen_core, 'backlog': gen_backlog, 'chain': gen.gen_chain, 'stop': gen.gen_stop, 'idle': gen.gen_idle, 'deep': gen.gen_deep, 'sibling': gen.gen_sibling, 'parraise': gen.gen_parraise}
 
 
 def corpus(prop):
